@@ -18,6 +18,7 @@ package bfe_balance
 
 import (
 	"fmt"
+	"sort"
 	"strings"
 	"sync"
 )
@@ -213,9 +214,23 @@ func (t *BalTable) SetSlowStart(clusterTable *bfe_route.ClusterTable) {
 
 func (t *BalTable) BalTableReload(gslbConfs gslb_conf.GslbConf,
 	backendConfs cluster_table_conf.ClusterTableConf) error {
+	// gslb conf and cluster table conf are two files checked separately by their
+	// loaders: reject a pair that does not fit together before the live table is
+	// touched, so that a rejected reload leaves the old conf serving
+	var fails []string
+	for clusterName := range *gslbConfs.Clusters {
+		if _, ok := (*backendConfs.Config)[clusterName]; !ok {
+			log.Logger.Error("BalTableReload():no backend conf for %s", clusterName)
+			fails = append(fails, clusterName)
+		}
+	}
+	if len(fails) != 0 {
+		sort.Strings(fails)
+		return fmt.Errorf("error in BalTableReload() for [%s]", strings.Join(fails, ","))
+	}
+
 	t.lock.Lock()
 
-	var fails []string
 	bmNew := make(BalMap)
 	for clusterName, gslbConf := range *gslbConfs.Clusters {
 		bal, ok := t.balTable[clusterName]
